@@ -208,6 +208,13 @@ def configs(tier):
     add("h_cross", "CPCCA|alpha=0.0|pca=1|overlap", cls="CPCCA", alpha=0.0, use_pca=True, labels="overlap", m=2)
     add("h_cross", "MCA|repeated", cls="MCA", labels="repeated")
     if tier == "thorough":
+        for lab in LABELS:
+            add("h_single", f"EOF|m4|{lab}", cls="EOF", labels=lab, m=4, n=5, p=3)
+            add("h_single", f"EOF|3d|{lab}", cls="EOF", labels=lab, layout="3d", p=4)
+            add("h_single", f"EOFRotator|power2|m3|{lab}", cls="EOF", labels=lab, p=3, rot={"n_modes": 2, "power": 2})
+            add("h_cross", f"CPCCA|alpha=0.5|pca|{lab}", cls="CPCCA", alpha=0.5, use_pca=True, labels=lab)
+        add("h_single", "EOF|k3|disjoint", cls="EOF", labels="disjoint", n=5, p=3, k=3)
+        add("h_cross", "CPCCARotator|alpha=0.0|power1|repeated", cls="CPCCA", alpha=0.0, labels="repeated", m=2, rot={"n_modes": 2, "power": 1})
         add("h_cross", "CCA|disjoint", cls="CCA", labels="disjoint")
         add("h_cross", "RDA|disjoint", cls="RDA", labels="disjoint")
     for alpha in (1.0, 0.5):
